@@ -30,7 +30,7 @@ type vRtOps[T comparable, C any] struct {
 	id      int
 	name    string
 	signal  pipeline.Signal
-	newP    func() T
+	newP    func(kind int) T
 	enc     func(T) []byte
 	isRO    func(T) bool
 	markRO  func(T)
@@ -42,7 +42,19 @@ type vRtOps[T comparable, C any] struct {
 
 var vRtLogs = vRtOps[plog.Logs, consumer.Logs]{
 	id: 0, name: "logs", signal: pipeline.SignalLogs,
-	newP:   func() plog.Logs { return testdata.GenerateLogs(2) },
+	newP: func(kind int) plog.Logs {
+		if kind == 0 {
+			return testdata.GenerateLogs(2)
+		}
+		ld := plog.NewLogs()
+		e := ld.ResourceLogs().AppendEmpty()
+		e.Resource().Attributes().PutStr("service.name", "idle")
+		e.SetSchemaUrl("https://example.test/res")
+		if kind == 1 {
+			e.ScopeLogs().AppendEmpty().Scope().SetName("no-records")
+		}
+		return ld
+	},
 	enc:    func(p plog.Logs) []byte { b, _ := (&plog.ProtoMarshaler{}).MarshalLogs(p); return b },
 	isRO:   func(p plog.Logs) bool { return p.IsReadOnly() },
 	markRO: func(p plog.Logs) { p.MarkReadOnly() },
@@ -61,7 +73,22 @@ var vRtLogs = vRtOps[plog.Logs, consumer.Logs]{
 
 var vRtMetrics = vRtOps[pmetric.Metrics, consumer.Metrics]{
 	id: 1, name: "metrics", signal: pipeline.SignalMetrics,
-	newP:   func() pmetric.Metrics { return testdata.GenerateMetrics(2) },
+	newP: func(kind int) pmetric.Metrics {
+		if kind == 0 {
+			return testdata.GenerateMetrics(2)
+		}
+		md := pmetric.NewMetrics()
+		e := md.ResourceMetrics().AppendEmpty()
+		e.Resource().Attributes().PutStr("service.name", "idle")
+		e.SetSchemaUrl("https://example.test/res")
+		if kind == 1 {
+			sc := e.ScopeMetrics().AppendEmpty()
+			sc.Scope().SetName("no-points")
+			sc.Metrics().AppendEmpty().SetEmptySum().SetIsMonotonic(true)
+			sc.Metrics().AppendEmpty().SetName("untyped")
+		}
+		return md
+	},
 	enc:    func(p pmetric.Metrics) []byte { b, _ := (&pmetric.ProtoMarshaler{}).MarshalMetrics(p); return b },
 	isRO:   func(p pmetric.Metrics) bool { return p.IsReadOnly() },
 	markRO: func(p pmetric.Metrics) { p.MarkReadOnly() },
@@ -80,7 +107,19 @@ var vRtMetrics = vRtOps[pmetric.Metrics, consumer.Metrics]{
 
 var vRtTraces = vRtOps[ptrace.Traces, consumer.Traces]{
 	id: 2, name: "traces", signal: pipeline.SignalTraces,
-	newP:   func() ptrace.Traces { return testdata.GenerateTraces(2) },
+	newP: func(kind int) ptrace.Traces {
+		if kind == 0 {
+			return testdata.GenerateTraces(2)
+		}
+		td := ptrace.NewTraces()
+		e := td.ResourceSpans().AppendEmpty()
+		e.Resource().Attributes().PutStr("service.name", "idle")
+		e.SetSchemaUrl("https://example.test/res")
+		if kind == 1 {
+			e.ScopeSpans().AppendEmpty().Scope().SetName("no-spans")
+		}
+		return td
+	},
 	enc:    func(p ptrace.Traces) []byte { b, _ := (&ptrace.ProtoMarshaler{}).MarshalTraces(p); return b },
 	isRO:   func(p ptrace.Traces) bool { return p.IsReadOnly() },
 	markRO: func(p ptrace.Traces) { p.MarkReadOnly() },
@@ -116,7 +155,10 @@ func vRunRouter[T comparable, C any](ops vRtOps[T, C], out *vOut, pcaps []bool, 
 	} else if cancelMid {
 		out.Stat("router_ctx_cancelled_during", 1)
 	}
-	sent := ops.newP()
+	// payload: with items | resource + scope (+ metric descriptors) but no items | resource only
+	pk := (len(sel)*3 + len(pcaps) + sel[0]*2) % 3
+	out.Stat(fmt.Sprintf("router_payload_kind_%d", pk), 1)
+	sent := ops.newP(pk)
 	if roIn {
 		ops.markRO(sent)
 	}
